@@ -19,6 +19,7 @@ import (
 	"net/netip"
 	"net/url"
 	"os"
+	"os/exec"
 	"regexp"
 	"sort"
 	"strconv"
@@ -605,7 +606,8 @@ func genPath(rng *rand.Rand) pathT {
 		return pathT{join(p.segs), p.m, "escape"}
 	default:
 		return pathT{pick(rng, []string{"/robots.txt", "/robots.txt", "/robots.txt/", "/linkip/../robots.txt", "/favicon.ico",
-			"/", "/linkip", "/ddns", "/linkip/", "//", "/dnscheck/test", "/%72obots.txt"}), "", "fixed"}
+			"/", "/", "/", "/linkip", "/ddns", "/linkip/", "//", "/dnscheck/test", "/%72obots.txt",
+			"/.well-known/security.txt", "/index.html"}), "", "fixed"}
 	}
 }
 
@@ -916,7 +918,7 @@ func genCase(r *vkit.Run, idx int, hostOfService string, localIPs []string) case
 // 0..len-1): the documented shapes, the near misses of the repository's own
 // test and the plainest forms of the hostile inputs, so that the first witness
 // of a violation class is the most readable one.
-func fixedCases(localIPs []string) []caseT {
+func fixedCases(ipsFor func(idx int) []string) []caseT {
 	type fc struct {
 		m, target string
 		hs        []hdr
@@ -952,6 +954,14 @@ func fixedCases(localIPs []string) []caseT {
 		{"GET", "/linkip/%25252e%25252e/admin/status", nil},
 		{"POST", "/ddns/dev1234/0123456789/%252e%252e", nil},
 	}
+	// the root path, the robots file and static paths: 6 consecutive copies of
+	// each, so that every service configuration (case index mod 6) sees each
+	for _, f := range []fc{{"GET", "/", nil}, {"POST", "/", nil}, {"GET", "/?x=1", nil}, {"HEAD", "/", nil}, {"GET", "//", nil},
+		{"GET", "/robots.txt", nil}, {"GET", "/favicon.ico", nil}, {"GET", "/index.html", nil}, {"GET", "/dnscheck/test", nil}} {
+		for i := 0; i < 6; i++ {
+			list = append(list, f)
+		}
+	}
 	var out []caseT
 	for i, f := range list {
 		q := reqT{Method: f.m, Target: f.target, Proto: "HTTP/1.1", MethodKind: "fixed", PathMode: "fixed-list",
@@ -973,7 +983,8 @@ func fixedCases(localIPs []string) []caseT {
 		if f.m == "POST" {
 			q.Headers = append(q.Headers, hdr{"Content-Length", "0"})
 		}
-		out = append(out, caseT{Idx: i, LocalIP: localIPs[i%len(localIPs)], Reqs: []reqT{q}})
+		localIPs := ipsFor(i)
+		out = append(out, caseT{Idx: i, LocalIP: localIPs[(i/7)%len(localIPs)], Reqs: []reqT{q}})
 	}
 	return out
 }
@@ -1015,8 +1026,28 @@ func (e *errColl) Collect(_ context.Context, err error) {
 
 func (e *errColl) count() int { e.mu.Lock(); defer e.mu.Unlock(); return len(e.errs) }
 
+// spec is one configuration an operator can write for the web service.
+type spec struct {
+	Name         string   `json:"name"`
+	Base         string   `json:"target_url_path"`     // path of the target URL ("" or "/api/v1")
+	Bind         string   `json:"linked_ip_bind_host"` // "127.0.0.1", "::" (dual stack) or a zoned link-local address
+	RootRedirect bool     `json:"root_redirect_url_set"`
+	ErrorPages   bool     `json:"error_pages_set"`
+	Static       bool     `json:"static_content_set"`
+	NonDoH       bool     `json:"non_doh_bind_set"`
+	ClientIPs    []string `json:"client_addresses"`
+}
+
+const rootRedirectTarget = "https://root-redirect.example/landing"
+
+// staticPaths are served by the static-content handler of the "full"
+// configurations (never on the linked-IP addresses, per doc/http.md).
+var staticPaths = []string{"/favicon.ico", "/.well-known/security.txt", "/index.html"}
+
 type fixture struct {
-	svcAddr string // 127.0.0.1:port of the linked-IP server
+	spec
+	port    int
+	svcAddr string // host:port of the linked-IP server
 	base    string // path of the target URL ("" or "/api/v1")
 	backend *http.Server
 	beAddr  string
@@ -1049,7 +1080,7 @@ func (f *fixture) ServeHTTP(w http.ResponseWriter, r *http.Request) {
 // freePort picks a port outside the kernel's ephemeral range (so that no
 // concurrently running process can be handed it by connect/bind(0)) and
 // verifies that it is free.
-func freePort(salt int) (int, error) {
+func freePort(salt int, probe func(port int) bool) (int, error) {
 	lo, hi := 32768, 60999
 	if b, err := os.ReadFile("/proc/sys/net/ipv4/ip_local_port_range"); err == nil {
 		_, _ = fmt.Sscanf(string(b), "%d %d", &lo, &hi)
@@ -1059,18 +1090,35 @@ func freePort(salt int) (int, error) {
 		if p >= lo && p <= hi {
 			continue
 		}
-		ln, err := net.Listen("tcp4", "127.0.0.1:"+strconv.Itoa(p))
-		if err != nil {
-			continue
+		if probe(p) {
+			return p, nil
 		}
-		_ = ln.Close()
-		return p, nil
 	}
 	return 0, fmt.Errorf("no free port outside the ephemeral range %d-%d", lo, hi)
 }
 
-func newFixture(salt int, base string) (*fixture, error) {
-	f := &fixture{ec: &errColl{}, base: base}
+func canListen(network, hostport string) bool {
+	ln, err := net.Listen(network, hostport)
+	if err != nil {
+		return false
+	}
+	_ = ln.Close()
+	return true
+}
+
+// dialAddr is the address a client with the given local address connects to.
+func (f *fixture) dialAddr(localIP string) string {
+	if f.Bind != "::" {
+		return f.svcAddr
+	}
+	if a, err := netip.ParseAddr(localIP); err == nil && a.Is4() {
+		return net.JoinHostPort("127.0.0.1", strconv.Itoa(f.port))
+	}
+	return net.JoinHostPort("::1", strconv.Itoa(f.port))
+}
+
+func newFixture(salt int, sp spec) (*fixture, error) {
+	f := &fixture{ec: &errColl{}, base: sp.Base, spec: sp}
 	ln, err := net.Listen("tcp4", "127.0.0.1:0")
 	if err != nil {
 		return nil, err
@@ -1079,21 +1127,52 @@ func newFixture(salt int, base string) (*fixture, error) {
 	f.backend = &http.Server{Handler: f, ReadHeaderTimeout: time.Minute}
 	go func() { _ = f.backend.Serve(ln) }()
 
-	port, err := freePort(salt)
+	f.port, err = freePort(salt, func(p int) bool {
+		hp := net.JoinHostPort(sp.Bind, strconv.Itoa(p))
+		if sp.Bind == "::" {
+			return canListen("tcp", hp) && canListen("tcp4", "127.0.0.1:"+strconv.Itoa(p))
+		}
+		return canListen("tcp", hp)
+	})
 	if err != nil {
 		return nil, err
 	}
-	f.svcAddr = "127.0.0.1:" + strconv.Itoa(port)
-	f.svc = websvc.New(&websvc.Config{
+	f.svcAddr = net.JoinHostPort(sp.Bind, strconv.Itoa(f.port))
+	conf := &websvc.Config{
 		LinkedIP: &websvc.LinkedIPServer{
-			TargetURL: &url.URL{Scheme: "http", Host: f.beAddr, Path: base},
+			TargetURL: &url.URL{Scheme: "http", Host: f.beAddr, Path: sp.Base},
 			Bind:      []*websvc.BindData{{Address: netip.MustParseAddrPort(f.svcAddr)}},
 		},
 		StaticContent: http.NotFoundHandler(),
 		DNSCheck:      http.NotFoundHandler(),
 		ErrColl:       f.ec,
 		Timeout:       60 * time.Second,
-	})
+	}
+	if sp.RootRedirect {
+		conf.RootRedirectURL, _ = url.Parse(rootRedirectTarget)
+	}
+	if sp.ErrorPages {
+		conf.Error404 = []byte("<html><body>custom 404 page</body></html>")
+		conf.Error500 = []byte("<html><body>custom 500 page</body></html>")
+	}
+	if sp.Static {
+		sc := websvc.StaticContent{}
+		for _, p := range staticPaths {
+			sc[p] = &websvc.StaticFile{Headers: http.Header{"Content-Type": {"text/plain"}}, Content: []byte("static content of " + p + "\n")}
+		}
+		conf.StaticContent = sc
+		conf.DNSCheck = http.HandlerFunc(func(w http.ResponseWriter, _ *http.Request) {
+			_, _ = io.WriteString(w, `{"client_ip":"192.0.2.1"}`)
+		})
+	}
+	if sp.NonDoH {
+		np, perr := freePort(salt+50, func(p int) bool { return canListen("tcp4", "127.0.0.1:"+strconv.Itoa(p)) })
+		if perr != nil {
+			return nil, perr
+		}
+		conf.NonDoHBind = []*websvc.BindData{{Address: netip.MustParseAddrPort("127.0.0.1:" + strconv.Itoa(np))}}
+	}
+	f.svc = websvc.New(conf)
 	if f.svc == nil {
 		return nil, fmt.Errorf("websvc.New returned nil")
 	}
@@ -1106,7 +1185,7 @@ func newFixture(salt int, base string) (*fixture, error) {
 	}
 	deadline := time.Now().Add(20 * time.Second)
 	for {
-		c, derr := net.DialTimeout("tcp4", f.svcAddr, time.Second)
+		c, derr := net.DialTimeout("tcp", f.dialAddr(sp.ClientIPs[0]), time.Second)
 		if derr == nil {
 			_ = c.Close()
 			return f, nil
@@ -1139,6 +1218,7 @@ type outcome struct {
 	C        caseT
 	Fixture  int
 	Base     string
+	Spec     spec
 	Peer     string // address the service saw: our local address
 	DialErr  string
 	Resps    []respT
@@ -1149,13 +1229,17 @@ type outcome struct {
 }
 
 func runCase(f *fixture, fi int, c caseT) outcome {
-	o := outcome{C: c, Fixture: fi, Base: f.base}
+	o := outcome{C: c, Fixture: fi, Base: f.base, Spec: f.spec}
 	n0, e0 := f.taken(), f.ec.count()
-	d := net.Dialer{LocalAddr: &net.TCPAddr{IP: net.ParseIP(c.LocalIP)}, Timeout: 20 * time.Second}
+	la := &net.TCPAddr{IP: net.ParseIP(c.LocalIP)}
+	if a, perr := netip.ParseAddr(c.LocalIP); perr == nil {
+		la = &net.TCPAddr{IP: a.AsSlice(), Zone: a.Zone()}
+	}
+	d := net.Dialer{LocalAddr: la, Timeout: 20 * time.Second}
 	var conn net.Conn
 	var err error
 	for try := 0; try < 3; try++ {
-		if conn, err = d.Dial("tcp4", f.svcAddr); err == nil {
+		if conn, err = d.Dial("tcp", f.dialAddr(c.LocalIP)); err == nil {
 			break
 		}
 		time.Sleep(50 * time.Millisecond)
@@ -1317,6 +1401,22 @@ func hostOf(addr string) string {
 	return addr
 }
 
+// samePeer compares the client-IP header value with the address the client
+// connected from.  For a zoned (link-local) peer the value may carry the zone
+// or not; everything else must be the same address.
+func samePeer(val, peer string, r *vkit.Run) bool {
+	if hostOf(val) == peer {
+		return true
+	}
+	a, err1 := netip.ParseAddr(hostOf(val))
+	b, err2 := netip.ParseAddr(peer)
+	if err1 == nil && err2 == nil && b.Zone() != "" && a.Zone() == "" && a == b.WithZone("") {
+		r.Bucket("client_ip_header_without_the_peers_zone", 1)
+		return true
+	}
+	return false
+}
+
 type judge struct {
 	r        *vkit.Run
 	peersFwd map[string]struct{}
@@ -1333,6 +1433,7 @@ func (j *judge) witness(o *outcome, k int, v verdict, extra map[string]any) map[
 		"target":           trunc(q.Target, 300),
 		"model":            v,
 		"target_url_path":  o.Base,
+		"service_config":   o.Spec,
 		"backend_received": o.RecsBy[k],
 		"generator":        map[string]any{"path_mode": q.PathMode, "hdr_kind": q.HdrKind, "conn_kind": q.ConnKind, "body_kind": q.BodyKind, "lenient": q.Lenient},
 	}
@@ -1384,6 +1485,18 @@ func (j *judge) evaluate(o *outcome) {
 		if v.HasDot {
 			r.Bucket("dot_segment_requests_sent", 1)
 		}
+		r.Bucket("requests_on_config:"+o.Spec.Name, 1)
+		decodedPath := pctDecode(v.Path, false)
+		if o.Spec.RootRedirect && decodedPath == "/" && q.Lenient == "" {
+			r.Bucket("root_path_requests_on_root_redirect_config", 1)
+		}
+		if o.Spec.Static && q.Lenient == "" {
+			for _, sp := range staticPaths {
+				if decodedPath == sp {
+					r.Bucket("static_path_requests_on_static_content_config", 1)
+				}
+			}
+		}
 		multi := multiEncoded(v.Path)
 		if multi {
 			r.Bucket("multi_encoded_requests_sent", 1)
@@ -1421,6 +1534,16 @@ func (j *judge) evaluate(o *outcome) {
 			rec := &recs[ri]
 			r.Bucket("backend_requests", 1)
 			j.peersFwd[peerIP] = struct{}{}
+			if pa, perr := netip.ParseAddr(peerIP); perr == nil {
+				switch {
+				case pa.Zone() != "":
+					r.Bucket("zoned_peer_requests_forwarded", 1)
+				case pa.Is6():
+					r.Bucket("ipv6_peer_requests_forwarded", 1)
+				case o.Spec.Bind == "::":
+					r.Bucket("ipv4_peer_on_dual_stack_bind_requests_forwarded", 1)
+				}
+			}
 			_, bp, _ := splitTarget(rec.RequestURI)
 			norm := normalisePath(bp)
 			dotted := norm != pctDecode(bp, true)
@@ -1510,10 +1633,13 @@ func (j *judge) evaluate(o *outcome) {
 			case len(vals) > 1:
 				r.Violation("proxy:client-ip-header-duplicated", "a forwarded request carries more than one client-IP header value",
 					j.witness(o, k, v, map[string]any{"expected_client_ip_header": peerIP, "got": vals}))
-			case hostOf(strings.TrimSpace(vals[0])) != peerIP:
+			case !samePeer(strings.TrimSpace(vals[0]), peerIP, r):
 				if h, ok := clientSupplied(q, vals[0]); ok {
 					r.Violation("proxy:client-ip-header-has-client-supplied-value",
 						"the client-IP header seen by the back-end repeats a value the client sent in "+h+" instead of the TCP peer address",
+						j.witness(o, k, v, map[string]any{"expected_client_ip_header": peerIP, "got": vals}))
+				} else if _, perr := netip.ParseAddr(hostOf(strings.TrimSpace(vals[0]))); perr != nil {
+					r.Violation("proxy:client-ip-header-not-an-address", "the client-IP header seen by the back-end is not an IP address at all, while the peer has one",
 						j.witness(o, k, v, map[string]any{"expected_client_ip_header": peerIP, "got": vals}))
 				} else {
 					r.Violation("proxy:client-ip-header-wrong-value", "the client-IP header is not the TCP peer address",
@@ -1611,10 +1737,57 @@ func usableLocalIPs() []string {
 	return ok
 }
 
+// linkLocalAddrs returns usable zoned link-local addresses ("fe80::1%eth0"): an
+// existing one of an interface that is up, or, if the machine has none, two
+// addresses that are added to the loopback interface for the duration of the
+// check (needs root and iproute2; undo removes them).  None: the zoned class is
+// not exercised and its coverage gate makes the run inconclusive.
+func linkLocalAddrs() (addrs []string, undo func()) {
+	undo = func() {}
+	ifs, _ := net.Interfaces()
+	for _, ifc := range ifs {
+		if ifc.Flags&net.FlagUp == 0 {
+			continue
+		}
+		as, _ := ifc.Addrs()
+		for _, a := range as {
+			ipn, ok := a.(*net.IPNet)
+			if !ok || ipn.IP.To4() != nil || !ipn.IP.IsLinkLocalUnicast() {
+				continue
+			}
+			z := ipn.IP.String() + "%" + ifc.Name
+			if canListen("tcp6", "["+z+"]:0") {
+				addrs = append(addrs, z)
+			}
+		}
+	}
+	if len(addrs) > 0 && os.Getenv("VERIF_C19_FORCE_LO_LINKLOCAL") == "" { // the knob exercises the fallback below
+		return addrs[:1], undo
+	}
+	addrs = nil
+	var added []string
+	undo = func() {
+		for _, a := range added {
+			_ = exec.Command("ip", "-6", "addr", "del", a+"/64", "dev", "lo").Run()
+		}
+	}
+	for i := 1; i <= 2; i++ {
+		a := fmt.Sprintf("fe80::c19:%x:%d", os.Getpid()&0xffff, i)
+		if err := exec.Command("ip", "-6", "addr", "add", a+"/64", "dev", "lo", "nodad").Run(); err != nil {
+			continue
+		}
+		added = append(added, a)
+		if canListen("tcp6", "["+a+"%lo]:0") {
+			addrs = append(addrs, a+"%lo")
+		}
+	}
+	return addrs, undo
+}
+
 func TestCheck(t *testing.T) {
 	r := vkit.Start(t, "C19", "exploration")
 	defer r.Finish()
-	r.Rule("26 hand-written requests (documented shapes, the repository test's near misses, plainest hostile forms), then seeded cases; each case = 1 (7%: 2 consecutive, keep-alive) raw HTTP/1.x request(s) on a fresh TCP connection from one of several 127/8 client addresses: " +
+	r.Rule("80 hand-written requests (documented shapes, the repository test's near misses, plainest hostile forms, root / robots / static paths on every configuration), then seeded cases; each case = 1 (7%: 2 consecutive, keep-alive) raw HTTP/1.x request(s) on a fresh TCP connection from one of several client addresses (127/8; ::1 and 127/8 on a dual-stack bind; a zoned link-local address) to one of 6 service configurations built through websvc.New (minimal | target URL with path | root redirect + error pages + static content + DNS check + non-DoH bind | root redirect + static | dual-stack bind | zoned link-local bind + root redirect + error pages): " +
 		"method {GET,POST,HEAD,PUT,DELETE,OPTIONS,PATCH,lower/mixed case,garbage tokens,non-tokens} x target " +
 		"(documented template with 0-2 edits | random grammar of 0-6 segments from {id,empty,.,..,%2e%2e,%2e,%2F,status,long,utf-8/escaped,api words,encoded api words,specials,domain,double/triple-encoded dots and slashes} | a documented shape with a double/triple percent-encoded dot segment or slash (lower/upper/mixed hex) in each placeholder position | " +
 		"prefix-escape patterns | fixed paths; optional query; origin/absolute/asterisk/authority/no-slash form) x header set " +
@@ -1632,30 +1805,49 @@ func TestCheck(t *testing.T) {
 		r.Sample("no run")
 		return
 	}
-	const workers = 4
+	// The configurations an operator can write, built through websvc.New:
+	// root redirect set / unset, error pages set / unset, static content and
+	// DNS-check handlers, a non-DoH bind next to the linked-IP one, a target
+	// URL with a path, and IPv4 / dual-stack / zoned link-local bind addresses.
+	specs := []spec{
+		{Name: "minimal", Bind: "127.0.0.1", ClientIPs: ips},
+		{Name: "target-url-with-path", Base: "/api/v1", Bind: "127.0.0.1", ClientIPs: ips},
+		{Name: "full:root-redirect+error-pages+static+non-doh", Bind: "127.0.0.1", RootRedirect: true, ErrorPages: true, Static: true, NonDoH: true, ClientIPs: ips},
+		{Name: "root-redirect+static", Bind: "127.0.0.1", RootRedirect: true, Static: true, ClientIPs: ips},
+	}
+	if canListen("tcp6", "[::1]:0") {
+		specs = append(specs, spec{Name: "dual-stack-bind", Bind: "::", ClientIPs: append([]string{"::1", "::1"}, ips[:2]...)})
+	} else {
+		r.Bucket("ipv6_loopback_unavailable", 1)
+	}
+	zoned, undo := linkLocalAddrs()
+	defer undo()
+	if len(zoned) > 0 {
+		specs = append(specs, spec{Name: "zoned-link-local-bind+root-redirect+error-pages", Bind: zoned[0], RootRedirect: true, ErrorPages: true, ClientIPs: zoned})
+	} else {
+		r.Bucket("link_local_address_unavailable", 1)
+	}
+	workers := len(specs)
 	fx := make([]*fixture, workers)
 	for i := range fx {
-		base := ""
-		if i == 1 {
-			base = "/api/v1"
-		}
-		f, err := newFixture(i, base)
+		f, err := newFixture(i, specs[i])
 		if err != nil {
-			r.Inconclusive("fixture: " + err.Error())
+			r.Inconclusive("fixture " + specs[i].Name + ": " + err.Error())
 			r.Sample("no run")
 			return
 		}
 		fx[i] = f
 		defer f.close()
 	}
+	r.Extra("service_configurations", specs)
 
-	fixed := fixedCases(ips)
+	fixed := fixedCases(func(idx int) []string { return specs[idx%workers].ClientIPs })
 	n := r.N(30000, 600000)
 	j := &judge{r: r, peersFwd: map[string]struct{}{}}
 	// Cases are executed in batches by the workers (case i on fixture i mod
 	// workers, strictly one case at a time per fixture) and judged in index
 	// order, so that the first witness of a class does not depend on timing.
-	const batch = 20000
+	batch := 3000 * workers
 	for lo := 0; lo < n; lo += batch {
 		hi := min(lo+batch, n)
 		outs := make([]outcome, hi-lo)
@@ -1664,16 +1856,16 @@ func TestCheck(t *testing.T) {
 			wg.Add(1)
 			go func(w int) {
 				defer wg.Done()
-				for idx := lo + (w-lo%workers+workers)%workers; idx < hi; idx += workers {
+				for idx := lo + w; idx < hi; idx += workers {
 					var c caseT
 					if idx < len(fixed) {
 						c = fixed[idx]
 					} else {
 						// the Host/absolute-form generator uses a fixed service
 						// name so that a case does not depend on the allocated port
-						c = genCase(r, idx, "127.0.0.1:8080", ips)
+						c = genCase(r, idx, "127.0.0.1:8080", specs[w].ClientIPs)
 					}
-					outs[idx-lo] = runCase(fx[idx%workers], idx%workers, c)
+					outs[idx-lo] = runCase(fx[w], w, c)
 				}
 			}(w)
 		}
@@ -1706,6 +1898,15 @@ func TestCheck(t *testing.T) {
 	r.Require("multi_encoded_requests_sent", int64(n/40))
 	r.Require("multi_encoded_requests_forwarded", int64(n/100))
 	r.Require("distinct_peer_addresses_forwarded", 2)
+	// configuration classes: the root path on services with a root redirect
+	// URL, static paths on services with static content
+	r.Require("root_path_requests_on_root_redirect_config", int64(n/400))
+	r.Require("static_path_requests_on_static_content_config", int64(n/1000))
+	// peer-address classes: IPv6, IPv4 on a dual-stack bind, zoned link-local
+	// (inconclusive where the machine has no IPv6 loopback / link-local address)
+	r.Require("ipv6_peer_requests_forwarded", int64(n/400))
+	r.Require("ipv4_peer_on_dual_stack_bind_requests_forwarded", int64(n/400))
+	r.Require("zoned_peer_requests_forwarded", int64(n/200))
 	r.Require("local_404", int64(n/6))
 	if to := r.BucketGet("watchdog_timeouts") + r.BucketGet("dial_errors"); to > int64(n/100) {
 		r.Inconclusive(fmt.Sprintf("%d cases hit the client watchdog or could not connect", to))
